@@ -221,6 +221,39 @@ def o_roundtrip(case):
     return None
 
 
+@oracle
+def o_big_export(case):
+    """a LARGE export (hundreds of megabytes per variable: many towers and steps on a fine grid): every slot of both variables bit-identical"""
+    from bldfm.io import save_footprints_to_netcdf, load_footprints_from_netcdf
+    from bldfm.config_parser import BLDFMConfig, DomainConfig, TowerConfig, MetConfig
+    ny, nx, nt, ns = case["ny"], case["nx"], case["towers"], case["steps"]
+    rng = np.random.default_rng(case["seed"])
+    x, y = np.arange(nx) * 2.0, np.arange(ny) * 3.0
+    X, Y = np.meshgrid(x, y)
+    names = ["tw%d" % k for k in range(nt)]
+    results = {n: [dict(grid=(X, Y, np.full((ny, nx), 2.0)), conc=rng.normal(size=(ny, nx)) + 10.0 * (k + 1), flx=rng.normal(size=(ny, nx)) - 7.0 * (t + 1),
+                        tower_name=n, timestamp=t, params=dict(ustar=0.3, mol=-50.0, wind_speed=3.0, wind_dir=200.0)) for t in range(ns)]
+               for k, n in enumerate(names)}
+    cfg = BLDFMConfig(domain=DomainConfig(nx=nx, ny=ny, xmax=2.0 * nx, ymax=3.0 * ny, nz=3),
+                      towers=[TowerConfig(name=n, lat=1.0 + k, lon=2.0 + k, z_m=3.0) for k, n in enumerate(names)], met=MetConfig(ustar=0.3))
+    fd, path = tempfile.mkstemp(suffix=".nc", dir=os.getcwd())
+    os.close(fd)
+    try:
+        save_footprints_to_netcdf(results, cfg, path)
+        ds = load_footprints_from_netcdf(path)
+        for k, n in enumerate(names):
+            for t in range(ns):
+                for var, key in (("footprint", "flx"), ("concentration", "conc")):
+                    got = np.asarray(ds[var][t, k].values)
+                    if got.shape != (ny, nx) or not np.array_equal(bits(got), bits(results[n][t][key])):
+                        return fail("C18/array/%s/large" % var, "loaded %s at (time %d, tower %d) of a %d MiB-per-variable export is not the saved one"
+                                    % (var, t, k, ny * nx * nt * ns * 8 // 2 ** 20), None, "bit-identical", "differs", 0)
+        ds.close()
+    finally:
+        os.remove(path)
+    return None
+
+
 def run(rng, tier, deep):
     st = new_stats()
     lines, impls = [], []
@@ -247,6 +280,9 @@ def run(rng, tier, deep):
                                                  str_ts=bool(rng.random() < 0.5), z0_forcing=bool(rng.random() < 0.4),
                                                  mixed_dtype=bool(rng.random() < 0.5), dup_ts=bool(rng.random() < 0.35), np_params=bool(rng.random() < 0.4), f32_prelude=bool(rng.random() < 0.4),
                                                  z_order=[int(v) for v in rng.permutation(3)] if (three_d and rng.random() < 0.6) else None))
+    if deep or tier == "thorough":
+        # one export of 160 MiB per variable (only in the thorough tier and in the failing-input search: ~20 s, ~1 GB)
+        run_oracle(st, o_big_export, dict(ny=1024, nx=1280, towers=4, steps=4, seed=int(rng.integers(1 << 30))))
     return finish(st, "result sets over towers 1..4 x steps 1..4 x 2-D/3-D, values from adversarial float64 bit patterns (+-0, denormals, +-1e308, the default "
                   "netCDF fill value, negatives), string and integer timestamps (incl. a repeated label), ustar or z0 forcing, per-step met values given as Python floats / ints / numpy scalars / 0-d arrays, result sets mixing float32 and float64 entries, 3-D outputs whose levels are not listed bottom-up; correspondence: which (tower, step) every dataset cell, label "
                   "and metadata slot holds, vs the Lean assembly model; oracle: bit-identical arrays, ds.sel by name and label, coordinates, metadata, NaN for "
